@@ -20,6 +20,19 @@ class LearnableThermometerThresholding(nn.Module):
         raw = torch.where(diffs > 20.0, diffs, torch.log(torch.expm1(diffs)))
         self.raw_diffs = nn.Parameter(raw)
 
+    def get_extra_state(self):
+        """Whether the thresholds are frozen decides how raw_diffs is read: it is part of the saved state."""
+        return {"frozen": bool(self._frozen)}
+
+    def set_extra_state(self, state):
+        self._frozen = bool(state["frozen"])
+        self.raw_diffs.requires_grad = not self._frozen
+
+    def _load_from_state_dict(self, state_dict, prefix, *args, **kwargs):
+        # checkpoints written before the flag was persisted carry no extra state: keep the current mode
+        state_dict.setdefault(prefix + nn.modules.module._EXTRA_STATE_KEY_SUFFIX, self.get_extra_state())
+        super()._load_from_state_dict(state_dict, prefix, *args, **kwargs)
+
     def get_thresholds(self):
         if self._frozen:
             return torch.cumsum(self.raw_diffs, dim=0)
